@@ -1,7 +1,8 @@
 CONSTANTS
   Dev = {}
   Alphabet <- AlphaSer
-  MaxLen = 5
+  MaxLen = 6
+  Prune = TRUE
   DepthProbe = {0, 1, 2, 256}
 INIT Init
 NEXT Next
